@@ -111,6 +111,9 @@ type scfg struct {
 	ExtraHeader  bool     `json:"extraHeader"`
 	ExtMode      string   `json:"extMode"`   // none | select | negotiate
 	RejectExt    string   `json:"rejectExt"` // reject=negotiate: the only extension the negotiator objects to ("" = all)
+	Rbuf         int      `json:"rbuf"`      // Upgrader.ReadBufferSize (transport detail, not judged)
+	Wbuf         int      `json:"wbuf"`      // Upgrader.WriteBufferSize
+	Chunk        int      `json:"chunk"`     // the request arrives in reads of at most this many bytes (0: at once)
 }
 
 func caseVar(name string, v int) string {
@@ -348,7 +351,7 @@ func inList(l []string, s string) bool {
 }
 
 func buildUpgrader(c scfg) ws.Upgrader {
-	u := ws.Upgrader{}
+	u := ws.Upgrader{ReadBufferSize: c.Rbuf, WriteBufferSize: c.Wbuf}
 	if c.HasSelector {
 		u.Protocol = func(p []byte) bool { return inList(c.Accept, string(p)) }
 	}
@@ -420,6 +423,9 @@ func runServer(api string, raw []byte, c scfg, key string) (o sobs, ran bool) {
 	switch api {
 	case "Upgrader":
 		rw := &rwBuf{r: bytes.NewReader(raw)}
+		if c.Chunk > 0 {
+			rw.r = &vh.ChunkReader{Data: raw, Sizes: []int{c.Chunk}}
+		}
 		hs, err := buildUpgrader(c).Upgrade(rw)
 		return observe(rw.w.Bytes(), hs, err, key), true
 	case "Upgrade":
